@@ -578,7 +578,10 @@ func (g *gen) runFrame() {
 // opGasLadder: probe the exact charge c of a scenario call, then run it with gas in
 // {0, c-1, c, c+1, c+small, 2^32, 2^64-1} (a failing call is rolled back, so the ladder is ascending).
 func (g *gen) opGasLadder() bool {
-	fn := oracle.AllFunctions[g.r.Intn(len(oracle.AllFunctions))]
+	return g.gasLadderFor(oracle.AllFunctions[g.r.Intn(len(oracle.AllFunctions))])
+}
+
+func (g *gen) gasLadderFor(fn string) bool {
 	sp, ok := g.scenario(fn)
 	if !ok {
 		return false
@@ -718,19 +721,31 @@ func (g *gen) opCallbackWithCall() bool {
 func (g *gen) runGas() {
 	// in half of the worlds the epoch-gated functions start inactive: schedule changes made before their activation
 	// epoch must price them once they are enabled
+	// by seed: 1 mod 4 — activation epoch 2, a schedule change right before every epoch move; 3 mod 4 — activation epoch 1,
+	// likewise; 0 and 2 mod 4 — active from the start (the schedule the factory was built with prices the first calls)
 	act := uint32(0)
-	if g.seed%4 != 0 {
-		act = uint32(1 + g.seed%2)
+	switch g.seed % 4 {
+	case 1:
+		act = 2
+	case 3:
+		act = 1
 	}
 	g.setupWorld(worldOpts{activation: act, epoch: 0})
 	g.standardState()
 	g.widenRoles()
+	if act == 0 {
+		// the schedule the factory was BUILT with prices the first call of every function (a later schedule change would
+		// overwrite a wrong binding made at construction)
+		for _, fn := range oracle.AllFunctions {
+			for try := 0; try < 3 && !g.gasLadderFor(fn); try++ {
+			}
+		}
+	}
 	cur := int64(0)
 	opEpochUp := func() bool {
-		if cur >= int64(act)+1 {
+		if cur >= int64(act) {
 			return false
 		}
-		// a schedule change right before the epoch moves (accepted or rejected), then the move
 		g.opGasmapChange()
 		cur++
 		g.emitf("epoch * %d", cur)
@@ -1132,9 +1147,41 @@ func (g *gen) runDeterminism() {
 	g.setupWorld(worldOpts{activation: 0, epoch: 0})
 	g.standardState()
 	g.widenRoles()
+	// role lists are ordered: take one role out of a list of three or more (two or more stay, so an implementation that
+	// rebuilds the list from an unordered container shows), put it back, and hand create roles over
+	opRoleChurn := func() bool {
+		t := g.allTokens()
+		for try := 0; try < 12 && len(t) > 0; try++ {
+			tok, a := g.pick(t), g.pick(g.accounts)
+			var held []string
+			for _, r := range g.rolesOf(a, tok) {
+				if r != oracle.RoleNFTCreate {
+					held = append(held, r)
+				}
+			}
+			if len(g.rolesOf(a, tok)) < 3 || len(held) == 0 {
+				continue
+			}
+			r := held[g.r.Intn(len(held))]
+			g.do(g.sys(oracle.FnUnSetRole, a, tok, []byte(r)))
+			if g.r.Intn(2) == 0 {
+				g.do(g.sys(oracle.FnSetRole, a, tok, []byte(r)))
+			}
+			return true
+		}
+		return false
+	}
+	opHandOver := func() bool {
+		sp, ok := g.scenario(oracle.FnHandOver)
+		if !ok {
+			return false
+		}
+		g.do(sp)
+		return true
+	}
 	g.loop([]wop{
 		{12, g.opTransfer}, {12, g.opNFTTransfer}, {16, g.opMulti}, {8, g.opMint}, {6, g.opLocalBurn}, {5, g.opESDTBurn},
 		{8, g.opCreate}, {6, g.opAddQty}, {6, g.opNFTBurn}, {3, g.opAddURI}, {3, g.opUpdateAttr}, {3, g.opFreezeThenWipe},
-		{4, g.opSKV}, {3, g.opAnyFunction}, {10, g.lateNetwork}, {2, g.opPayableFlip},
+		{4, g.opSKV}, {3, g.opAnyFunction}, {10, g.lateNetwork}, {2, g.opPayableFlip}, {4, opRoleChurn}, {1, opHandOver},
 	})
 }
